@@ -459,9 +459,12 @@ impl<'a> Interp<'a> {
                 let Some(uid) = self.pick_user(user, true) else { return Ok(()) };
                 let u = self.users[&uid].clone();
                 let name = TOKNAMES[name as usize % TOKNAMES.len()].to_string();
-                if !u.active || u.tokens.iter().any(|t| t.name == name) {
+                if !u.active {
                     return Ok(());
                 }
+                // a second token under a name the user already has: the server refuses; should it accept, the model
+                // holds both, and deleting the name must end the validity of both (judged by the battery)
+                let duplicate = u.tokens.iter().any(|t| t.name == name);
                 let n = self.node.as_ref().unwrap();
                 let c = match n.tcp_login(&u.name, &u.password) {
                     Ok(c) => c,
@@ -483,6 +486,9 @@ impl<'a> Interp<'a> {
                             self.out.label("token-of-digit-only-username");
                             self.out.nontrivial = true;
                         }
+                    }
+                    Err(_) if duplicate => {
+                        self.out.label("duplicate-token-name-refused");
                     }
                     Err(e) => return Err(self.fail("create-token-failed", format!("{e}"))),
                 }
